@@ -579,3 +579,174 @@ def segment_level(run, rng, dist):
             cases.append(c)
             dist['z-segment'] = dist.get('z-segment', 0) + 1
     return cases
+
+
+# ------------------------------------------------------------------------------------------
+# message level
+
+
+def names_intended(nodes):
+    return [n[1] if n[0] == 'S' else (n[1], names_intended(n[3])) for n in nodes]
+
+
+def names_parsed(sh):
+    return [n[1][:3] if n[0] == 'S' else (n[1], names_parsed(n[2])) for n in sh]
+
+
+def all_names(ref, acc=None):
+    acc = set() if acc is None else acc
+    for row in ref[1]:
+        acc.add(row[0])
+        if row[3] == 'GRP' and is_seq(row[1]):
+            all_names(row[1], acc)
+    return acc
+
+
+def build_api(mname, v, nodes, lines, reference=None):
+    """the intended tree, built through the API (no group search)"""
+    from hl7apy.core import Message, Group
+    it = iter(lines)
+    msg = Message(mname, version=v, validation_level=TOL, reference=reference)
+
+    def mk(node):
+        if node[0] == 'S':
+            return parse_segment(next(it), version=v, validation_level=TOL, reference=node[2])
+        g = Group(node[1], version=v, validation_level=TOL, reference=node[2])
+        for k in node[3]:
+            g.add(mk(k))
+        return g
+    msg.children = [mk(n) for n in nodes]
+    return msg
+
+
+def addressable(mname, ref):
+    """can parse_message recover the structure name from MSH-9?"""
+    p = mname.split('_')
+    if len(p) < 2 or mname.endswith('nn'):
+        return False
+    for row in ref[1]:
+        if row[0] == 'MSH' and is_seq(row[1]):
+            for f in row[1][1]:
+                if f[0] == 'MSH_9' and is_seq(f[1]):
+                    return len(f[1][1]) >= 3 or len(p) == 2
+    return False
+
+
+def message_case(run, v, mname, label, lines, expect, ref, nodes, profile=None, profile_name=None):
+    """parse + validate one message text; judge; returns the correspondence case (or None)"""
+    text = '\r'.join(lines)
+    where = {'level': 'message', 'version': v, 'structure': mname, 'mutation': label, 'text': text,
+             'expect': list(expect), 'reference': profile_name or 'standard'}
+    try:
+        msg = parse_message(text, validation_level=TOL, find_groups=True, message_profile=profile)
+    except Exception as ex:  # noqa
+        if expect[0] == 'valid':
+            run.fail('conforming-rejected', 'a conforming message does not parse', exc=repr(ex), dup_bounded=False,
+                     grouping_differs=False, **where)
+        return None
+    ec = S.default_ec(v)
+    code, keys, nlen, rep = check_purity_and_wrapper(run, msg, ec, where)
+    case = {'v': v, 'name': msg.name, 'code': code, 'keys': keys, 'nlen': nlen, 'lines': lines,
+            'shape': shape_of(msg), 'label': label, 'structure': mname}
+    if expect[0] == 'valid':
+        if code != 0 or keys:
+            grouping = nodes is not None and names_intended(nodes) != names_parsed(case['shape'])
+            dup = nodes is not None and dup_conflict(ref, nodes)
+            tree_ok = None
+            if nodes is not None and label != 'conforming-plus-z':
+                try:
+                    tree = build_api(mname, v, nodes, lines, profile)
+                    c2, k2, _, _ = observe(tree)
+                    tree_ok = (c2 == 0 and not k2)
+                except Exception as ex:  # noqa
+                    tree_ok = 'EXC ' + repr(ex)
+            run.fail('conforming-rejected', 'a conforming message does not validate', code=code, errors=keys[:6],
+                     dup_bounded=bool(dup), grouping_differs=bool(grouping), duplicate_names=has_duplicates(ref),
+                     intended_tree_validates=tree_ok, **where)
+    else:
+        judge(run, case, expect, where)
+    return case
+
+
+def message_variants(rng, lib, v, mname, ref, thorough):
+    """[(label, lines, expectation, nodes)]"""
+    out = []
+    nodes = instance(ref, 'req', lib)
+    if not nodes or nodes[0][1] != 'MSH':
+        return out
+    lines = lines_of(nodes, mname, v)
+    out.append(('conforming-required', lines, ('valid',), nodes))
+    nodes_all = instance(ref, 'all', lib)
+    if thorough or rng.random() < 0.4:
+        out.append(('conforming-all', lines_of(nodes_all, mname, v), ('valid',), nodes_all))
+    out.append(('conforming-plus-z', [lines[0], 'ZXX|a|b'] + lines[1:], ('valid',), nodes))
+    # ---- single-point mutations of the required-only instance
+    top = [(k, n) for k, n in enumerate(nodes)]
+    pos = {}        # index of the first line of every top-level node
+    at = 0
+    for k, n in top:
+        pos[k] = at
+        at += 1 if n[0] == 'S' else len(list(flat([n])))
+    req_segs = [(k, n) for k, n in top if n[0] == 'S' and n[1] != 'MSH' and [x[1] for x in nodes].count(n[1]) == 1]
+    if req_segs:
+        k, n = rng.choice(req_segs)
+        out.append(('remove-required-segment', lines[:pos[k]] + lines[pos[k] + 1:],
+                    ('missing-required-not-reported', 'Missing|%s|%s' % (mname, n[1]), None), None))
+    single = [(k, n) for k, n in top if n[0] == 'S' and n[1] != 'MSH'
+              and [row[2][1] for row in ref[1] if row[0] == n[1]] == [1]]
+    if single:
+        k, n = rng.choice(single)
+        out.append(('duplicate-single-segment', lines[:pos[k] + 1] + [lines[pos[k]]] + lines[pos[k] + 1:],
+                    ('limit-not-reported', 'Limit|%s|%s' % (mname, n[1]), None), None))
+    used = all_names(ref)
+    foreign = [s for s in sorted(lib.SEGMENTS) if s not in used and S.ok_segment(lib, s) and lib.SEGMENTS[s][1]
+               and not s.startswith('Z') and s != 'MSH']
+    if foreign:
+        f = rng.choice(foreign)
+        out.append(('insert-foreign-segment', [lines[0], fill_segment(f, lib.SEGMENTS[f])] + lines[1:],
+                    ('foreign-child-not-reported', 'InvalidChildren|%s|' % mname, f), None))
+    grp = [(k, n) for k, n in top if n[0] == 'G' and len(n[3]) >= 2 and all(x[0] == 'S' for x in n[3])
+           and len({x[1] for x in n[3]}) == len(n[3])]
+    if grp:
+        k, n = rng.choice(grp)
+        j = rng.randrange(1, len(n[3]))
+        out.append(('remove-required-segment-in-group', lines[:pos[k] + j] + lines[pos[k] + j + 1:],
+                    ('missing-required-not-reported', 'Missing|%s|%s' % (n[1], n[3][j][1]), None), None))
+    bad = lines[0].split('|')
+    bad[8] = 'QQQ^Q99^QQQ_Q99' if bad[8].count('^') >= 2 else 'QQQ^Q99'
+    out.append(('unknown-message-type', ['|'.join(bad)] + lines[1:],
+                ('unknown-not-reported', 'Unknown|None|None', None), None))
+    return out
+
+
+def message_level(run, rng, dist):
+    cases = []
+    stats = {'structures': 0, 'non_structures': 0, 'not_addressable_from_text': 0}
+    per_version = 14 if not run.thorough else 100000
+    for v in S.VERSIONS:
+        lib = hl7apy.load_library(v)
+        good = []
+        for m in sorted(lib.MESSAGES):
+            ref = lib.MESSAGES[m]
+            if not structure_ok(ref):
+                stats['non_structures'] += 1
+            elif not addressable(m, ref):
+                stats['not_addressable_from_text'] += 1
+            else:
+                good.append(m)
+        rng.shuffle(good)
+        for m in good[:per_version]:
+            ref = lib.MESSAGES[m]
+            stats['structures'] += 1
+            base_ok = True
+            for label, lines, expect, nodes in message_variants(rng, lib, v, m, ref, run.thorough):
+                if expect[0] != 'valid' and not base_ok:
+                    continue      # mutations are judged against a base instance that validates
+                before = len(run.failures)
+                c = message_case(run, v, m, label, lines, expect, ref, nodes)
+                if label == 'conforming-required' and len(run.failures) > before:
+                    base_ok = False
+                dist[label] = dist.get(label, 0) + 1
+                if c is not None:
+                    cases.append(c)
+    return cases, stats
